@@ -48,6 +48,10 @@ CHECKS = {
    text="Fault-sequence search on a dialer whose transport is fully scripted: generated scripts of refusals, connections rejected in Attaching, connections dropped after 0/5/120 ms and lasting connections, for ReconnectTime in {5,10,20,50 ms}, MaxReconnectTime in {0,r,2r,8r,40r}, synchronous and asynchronous dialing, with Close of the dialer or the socket between attempts, during a hanging attempt or while connected. Oracle over the time-stamped attempt log: failed synchronous first dial returns the error and stops; otherwise attempts continue; every gap >= reconnect time and >= the grown delay after consecutive refusals (exact lower bounds); gaps bounded by the cap / 1.5^j growth; the delay returns to the initial value after a connection that lasted >= 100 ms; no attempt starts after Close returned. A real-socket variant restarts the listener 1-3 times (inproc/tcp/ipc) and requires traffic to resume with no action on the dialing side.",
    note="Real time. Lower bounds are exact; upper bounds carry 250 ms slack and, like the reset and no-attempt-after-Close checks, are reported only when they fail in 3 consecutive executions of the same generated case. Reconnection is checked within generous bounds (3-5 s), not as liveness.",
    technique="property-based fault injection (rapid) with a history invariant over the time-stamped dial log of a virtual transport"),
+ "C15": dict(
+   text="Conformance search against an independent codec (harness/wire: SP stream header and framing, IPC prefix, and an RFC 6455 client/server written without gorilla): for constructors of all 12 protocol numbers on tcp/ipc/tls+tcp, in both roles, mangos' first 8 bytes must equal the header of its own protocol; every single-byte deviation, swapped number, foreign protocol or truncated header from the peer must lead to no Attached event and a closed connection while the correct header attaches; generated messages (raw header 0-32 bytes, boundary-biased bodies to 70000 bytes) must appear on the wire as len64be(h+b)||h||b (IPC: 0x01 first) and frames written by the codec must be returned by RecvMsg unchanged; on ws/wss the dialer must offer exactly '<peer>.sp.nanomsg.org', the listener must accept iff its own name is offered, and each message must be one binary frame. Thorough adds a native fuzz target comparing accept/deliver decisions with the codec on arbitrary peer byte strings.",
+   note="The constructor is drawn, not enumerated, per transport x role sub-test. Known finding: ws/wss dialers fragment messages above 4096 bytes. Hostile IPC prefix bytes and silent peers belong to C16.",
+   technique="property-based testing (rapid) with a differential oracle: an independent implementation of the SP stream/WebSocket mappings as the peer; native go fuzzing in the thorough tier"),
 }
 
 ALL = ["C%02d" % i for i in range(1, 21)]
